@@ -456,6 +456,8 @@ class Interp:
                 return ('sym', Sym('member', (s, fld), qtype(node)))
             if not isinstance(s, dict):
                 raise PEError('member %s of non-record %r at %s' % (fld, s, astdb.loc_str(node)))
+            if '_union' in s and getattr(self, 'union_endian', None):
+                self._union_sync(s, fld, qtype(base) if not node.get('isArrow') else qtype(base).rstrip().rstrip('*'))
             if fld not in s and '_default' not in s and '_union' not in s and node.get('isArrow'):
                 # C idiom: a pointer to a record and a pointer to its first member are interchangeable
                 first = next((k for k in s if not str(k).startswith('_')), None)
@@ -535,10 +537,41 @@ class Interp:
             if q.startswith(pre):
                 name = q[len(pre):]
                 for tu in ([self.cur_tu] if self.cur_tu else []) + self.tus:
-                    r = tu.records.get(name)
+                    r = tu.record(name)
                     if r is not None:
                         return [(c['name'], qtype(c)) for c in kids(r) if c.get('kind') == 'FieldDecl'], r.get('tagUsed')
         return None, None
+
+    def _union_sync(self, u, fld, uq):
+        """type punning between an integer member and a byte-array member of a union, in the byte order Interp.union_endian"""
+        last = u.get('_last')
+        if last is None:
+            last = next((k for k in u if not str(k).startswith('_')), None)
+        u['_last'] = fld
+        if last is None or last == fld or last not in u:
+            return
+        fields, tag = self.record_fields(uq)
+        if not fields:
+            return
+        ft = dict(fields)
+        src, dst_t, src_t = u[last], _clean(ft.get(fld, '')), _clean(ft.get(last, ''))
+        big = self.union_endian == 'big'
+        di, si = astdb.int_type_info(self.tu_desugar(dst_t)), astdb.int_type_info(self.tu_desugar(src_t))
+        if isinstance(src, list) and di is not None and all(isinstance(b, int) for b in src[:di[0] // 8]):
+            bs = [b & 0xff for b in src[:di[0] // 8]]
+            v = int.from_bytes(bytes(bs), 'big' if big else 'little')
+            if di[1] and v >> (di[0] - 1):
+                v -= 1 << di[0]
+            u[fld] = v
+        elif isinstance(src, int) and _array_len(dst_t) is not None and si is not None:
+            n = si[0] // 8
+            u[fld] = list((src & ((1 << si[0]) - 1)).to_bytes(n, 'big' if big else 'little')) + [0] * max(0, _array_len(dst_t) - n)
+        else:
+            u.pop(fld, None)
+
+    def tu_desugar(self, t):
+        tu = self.cur_tu or (self.tus[0] if self.tus else None)
+        return tu.desugar(t) if tu is not None else t
 
     def eval_init(self, node, qt):
         if node.get('kind') == 'InitListExpr':
